@@ -1865,8 +1865,33 @@ def tag_hist(ln, ans):
 # ----------------------------------------------------------------------------------------------
 
 
+SRC_THEOREMS = ['GV.C14Src.' + t for t in (
+    # ring orientation: is_counter_clockwise, ensure_edge_bounds, Coordinate.__eq__, GeoPolygon.__init__
+    'ensureEdgeBounds_eq', 'isCounterClockwise_eq', 'coordEq_eq', 'polygonInit_eq', 'polygonInitDefault_eq',
+    # positions and rings: to_float, bounding_coords, linear_rings
+    'toFloat_eq', 'polygonLinearRings_eq', 'boxBoundingCoords_eq', 'boxLinearRings_eq', 'curvedLinearRings_eq',
+    'ringBoundingCoords_eq', 'ringLinearRings_eq', 'mpolyLinearRings_eq',
+    # the geometry member: to_geo_interface of every exporting class (coordinates nesting, bbox)
+    'polygonToGeoInterface_eq', 'boxToGeoInterface_eq', 'curvedToGeoInterface_eq', 'ringToGeoInterface_eq',
+    'lineToGeoInterface_eq', 'pointToGeoInterface_eq', 'mlineToGeoInterface_eq', 'mpointToGeoInterface_eq',
+    'mpolyToGeoInterface_eq',
+    # the Feature, properties, time fields out and back
+    'startDt_eq', 'endDt_eq', 'properties_eq', 'propertiesJson_eq', 'toGeoJson_eq', 'convert_eq', 'getDt_eq',
+    # the importers: from_geojson of the six types (dynamic lookups, ring / member loops, time fields popped from a copy)
+    'pointFromGeoJson_eq', 'lineFromGeoJson_eq', 'mpointFromGeoJson_eq', 'mlineFromGeoJson_eq', 'polygonLoop1_spec',
+    'polygonLoop2_spec', 'polygonTail1', 'polygonTail2', 'polygonFromGeoJson_eq', 'mpolyLoop1_spec', 'mpolyLoop2_spec',
+    'mpolyTail1', 'mpolyTail2', 'mpolyFromGeoJson_eq', 'srcImport_eq', 'arrOK_exported',
+    # the chain as Python dispatches it
+    'PolyRecv.linearRings_eq', 'PolyRecv.geoInterface_eq', 'Recv.geoInterface_eq', 'export_eq',
+    # C14's headline theorems restated for the translated source
+    'src_isCCW_iff_area', 'src_isCCW_iff_winding', 'src_mkPolygon', 'src_exterior_ccw_holes_cw',
+    'src_exterior_ccw_holes_cw_antimeridian', 'src_geom_roundtrip', 'src_roundtrip', 'src_time_fields_roundtrip',
+    'src_time_fields_absent', 'src_full_roundtrip')]
+
+
 def check(run):
     run.prove(MODULE, THEOREMS)
+    run.source_tie(['SrcGeoJson'], 'GeoVerif.Props.C14Src', SRC_THEOREMS)
     rng = run.rng
 
     # ---- exhaustive small world: one triangle / square in every orientation, closure and Z variant,
